@@ -393,6 +393,7 @@ fn emit_fn(
         rw.visit_block_mut(&mut block);
     }
     rules::mut_self(&mut sig, &mut block, fired);
+    rules::unshadow_params(&sig, &mut block, fired);
     // R-chainlet: `a.m1(x).m2(y)` in tail position => `let __c0 = a.m1(x); let __c1 = __c0.m2(y); __c1`
     if contract.map(|c| c.chainlet).unwrap_or(false) {
         if let Some(Stmt::Expr(tail, None)) = block.stmts.pop() {
